@@ -36,10 +36,10 @@ var c14Words = []string{"null", "true", "false", "0", "-1", "007", "1e5", "1.0",
 func c14Strings(seed uint64, nrand int) (int, func(i int) string) {
 	A, D := len(c14Alphabet), len(c14Danger)
 	n1 := 1 + A + A*A
-	n2 := D*D*D + len(c14Words)
+	n2 := D*D*D + len(awkwardKeys)
 	return n1 + n2 + nrand, func(i int) string {
-		if k := i - n1 - D*D*D; k >= 0 && k < len(c14Words) {
-			return c14Words[k]
+		if k := i - n1 - D*D*D; k >= 0 && k < len(awkwardKeys) {
+			return awkwardKeys[k]
 		}
 		switch {
 		case i == 0:
@@ -262,6 +262,19 @@ func c14(r *mon.Run) {
 			if o.Panicked || o.Err != nil || !ref.Match(v, o.V) || (o.V != nil && mon.JSONClosed(o.V) != "") {
 				r.Violate(&mon.Violation{Workload: "literals", Index: i, API: "Search", Expr: expr, Expected: ref.Canon(v), Observed: o.String(), Class: "literal"})
 				return
+			}
+			// the compiled expression hands out the same value (an empty list is an empty list there too, not nil), twice
+			if jp, co := apiCompile(expr); co.Panicked || co.Err != nil {
+				r.Violate(&mon.Violation{Workload: "literals", Index: i, API: "Compile", Expr: expr, Expected: "compiles", Observed: co.String(), Class: "literal"})
+				return
+			} else {
+				for k := 0; k < 2; k++ {
+					oc := apiJP(jp, nil)
+					if oc.Panicked || oc.Err != nil || !ref.Match(v, oc.V) || (oc.V != nil && mon.JSONClosed(oc.V) != "") {
+						r.Violate(&mon.Violation{Workload: "literals", Index: i, API: "Compile+Search", Expr: expr, Expected: ref.Canon(v), Observed: oc.String(), Detail: mon.JSONClosed(oc.V), Class: "literal (compiled)"})
+						return
+					}
+				}
 			}
 			if interesting(text) {
 				t.Nontrivial("l:" + text)
